@@ -58,6 +58,8 @@ func runC22(c *Ctx) {
 	r.Exhaustive = true
 	r.Rule("C22.R1", "updateConnectionState, tabulated over (closed, ICE state, DTLS state): the state handed to onConnectionStateChange equals the W3C RTCPeerConnectionState aggregate in every cell over the W3C states", 70)
 	r.Rule("C22.R2", "the notification happens iff the computed state differs from the stored state (tabulated over the stored state too); the stored state is written only by onConnectionStateChange and the constructor; onConnectionStateChange is called only from updateConnectionState", 73)
+	r.Rule("C22.R4", "freshness: at every call of updateConnectionState the DTLS argument is pc.dtlsTransport.State() read in the call itself, or a local sampled from it with no other call between the sample and the update; likewise an ICE argument sampled through ICEConnectionState()", 6)
+	r.Rule("C22.R5", "no lost update: after every pc.dtlsTransport.Start / Stop in a PeerConnection method every path to the function exit passes updateConnectionState (the error path of Start, which leaves DTLS failed, included)", 2)
 	r.Rule("C22.R3", "the ICETransportState -> ICEConnectionState mapping in createICETransport is the identity on names and feeds both onICEConnectionStateChange and updateConnectionState", 7)
 	r.NotCovered = append(r.NotCovered, "interleaving of two concurrent updateConnectionState calls between compare and store", "cells with Unknown / undeclared enum values (no W3C oracle)")
 	r.Trusted = append(r.Trusted, "W3C webrtc §4.3.3 aggregate as transcribed in props/c22.go", "absint soundness on the supported fragment")
@@ -222,6 +224,7 @@ func runC22(c *Ctx) {
 	}
 
 	c22R3(c, upd)
+	c22R45(c) // c22b.go
 }
 
 func c22R3(c *Ctx, upd *core.FuncInfo) {
